@@ -85,7 +85,8 @@ def is_closed(text):
 
 
 def run_expr(eng, g, A, op, operand_texts, op_is_function=False):
-    operands = [A.prim(i) for i in range(len(operand_texts))]
+    # der() is applied to a variable reference (the usual case) when the operand text is a name, else to an expression node
+    operands = [A.ref(t) if op == "der" and t.isidentifier() else A.prim(i) for i, t in enumerate(operand_texts)]
     for o, t in zip(operands, operand_texts):
         ops.setitem(eng, g.fields["src"], o, t)
     tree = A.expr(A.ref(op) if op_is_function else op, *operands)
@@ -128,6 +129,8 @@ def h_expression_step(eng):
         node = parse_expr(txt) if isinstance(txt, str) else None
         ok = isinstance(node, pyast.Call) and isinstance(node.func, pyast.Attribute) and node.func.attr == "diff" and \
             isinstance(node.func.value, pyast.Name) and node.func.value.id == "L"
+        # (a bare name such as L_dot is not accepted: any identifier can also be the mangled name of a Modelica variable, so it
+        # does not denote the derivative of L in every model)
         eng.prove("print.der_differentiates_whole_operand", z3.BoolVal(bool(ok)), text=txt)
     eng.cover("print.step")
 
